@@ -39,7 +39,7 @@ def confirm(cid, k):
     rc, out = sh("cargo test --offline --test demo 2>&1 | grep -E '^test result|^error' | head -1", w)
     without = out.strip()
     sh("rm -rf tests", w)
-    ok = ("75 passed; 0 failed" in suite and "FAILED" not in suite and "FAILED" in with_change and "ok." in without and "FAILED" not in without)
+    ok = ("75 passed; 0 failed" in suite and "FAILED" not in suite and ("FAILED" in with_change or "error: test failed" in with_change) and "ok." in without and "FAILED" not in without)
     return {"applies": True, "suite_with_change": suite, "demo_with_change": with_change, "demo_without_change": without, "confirmed": ok}
 
 
